@@ -651,6 +651,12 @@ func (c *Ctx) entailsLinearRec(env *linEnv, pc *Formula, facts []LinFact, depth 
 			seenInd[t.Key()] = true
 			v := linVar(t)
 			background = append(background, leq(linConst(*c0), v, 0, t.String()+" ≥ its initial value"))
+			// the counter of a rotated `for i := range n` loop stays below n
+			if n, isRot := rotatedCounted(ph); isRot {
+				if nl, err := env.linTerm(t.C.Term(n)); err == nil {
+					background = append(background, Constraint{lin: v.add(nl, -1).add(linConst(1), 1), why: t.String() + " < the range bound"})
+				}
+			}
 		}
 	}
 	indWalk = func(t *Term) {
